@@ -80,6 +80,10 @@ func (c *Crit) build() query.Criteria {
 		default:
 			return f.LtEq(v)
 		}
+	case "neq":
+		return f.Neq(c.Val.goValue())
+	case "notexists":
+		return f.NotExists()
 	case "exists":
 		return f.Exists()
 	case "like":
@@ -120,6 +124,10 @@ func (c *Crit) term() string {
 	switch c.Kind {
 	case "cmp":
 		return fmt.Sprintf("(CCmp %s %s %s)", c.Op, gStr(c.Field), c.Val.term())
+	case "neq":
+		return fmt.Sprintf("(CNot (CCmp OEq %s %s))", gStr(c.Field), c.Val.term())
+	case "notexists":
+		return "(CNot (CExists " + gStr(c.Field) + "))"
 	case "exists":
 		return "(CExists " + gStr(c.Field) + ")"
 	case "like":
